@@ -491,6 +491,8 @@ func (g *Gen) genC04() {
 		var line, kind string
 		if r.P(25) {
 			s = ip6Shape(r)
+		} else if r.P(25) {
+			s = sigShape(r)
 		} else if r.P(10) { // Call-ID shapes: hex / decimal blocks right before and after an address, very long ids
 			ip := r.Pick("10.0.0.1", "192.168.1.255", "::1", "fe80::1:2", "1:2:3:4:5:6:7:8", "[2001:db8::1]")
 			s = r.RandBytes("0123456789abcdefABCDEF", 0, 9) + r.Pick("", "-", "@", ".", ":") + ip + r.Pick("", "-", "@", ".") + r.RandBytes("0123456789abcdef-@", 0, 12)
